@@ -65,7 +65,7 @@ def run(tier, seed):
     ]
     rule = ("S1: shapes x index forms (int, slice, Ellipsis, newaxis, boolean mask, integer array, tuples; deterministic catalogue + seeded tuples), "
             "broadcast pairs, reductions, reshapes vs NumPy; S2/S3: the same index forms on unyt_array / unyt_quantity / subclass parents; "
-            "S4: constructors x input kinds x shapes, data*unit, quantity lists; S5: accessors x shapes; "
+            "S4: constructors x input kinds x shapes, data*unit, quantity lists; S4b: quantity lists through the regenerated _coerce_iterable_units program: unit groups (offset, plain, incommensurable) x element dtype kinds and shapes x routes (list/tuple constructor, ufunc list operand left/right) x position of the differing unit; S5: accessors x shapes; "
             "S6: every ufunc in unyt_array._ufunc_registry x operand class pairs x shape pairs x (call, reduce, accumulate, outer); "
             "S7: array-function / method catalogue x shapes; distinct = distinct (section, operation, operand classes, shapes, index form)")
     return chk.finish(rule)
